@@ -217,6 +217,10 @@ class ExprMixin:
             else:
                 v = self.res(self.ev(p.value))
                 if p.format_spec is not None:
+                    padded = self.zero_padded(p, v)
+                    if padded is not None:
+                        parts.append(padded)
+                        continue
                     for q in p.format_spec.values:
                         if isinstance(q, ast.FormattedValue):
                             self.ev(q.value)
@@ -235,6 +239,36 @@ class ExprMixin:
         for p in parts:
             t = p.t if t is None else z3.Concat(t, p.t)
         return VStr(t if t is not None else z3.StringVal(''))
+
+    def zero_padded(self, p, v):
+        """f'{v:0<N>d}' with N a literal or one nested integer field, for an integer v: the decimal digits of v
+        left-padded with zeros to at least N characters (exact for v >= 0; a negative v stays opaque)."""
+        if p.conversion != -1 or not isinstance(v, VInt) or isinstance(v, VBool):
+            return None
+        vals = p.format_spec.values
+        width = None
+        if len(vals) == 1 and isinstance(vals[0], ast.Constant):
+            m = __import__('re').fullmatch(r'0(\d+)d', vals[0].value)
+            if m:
+                width = z3.IntVal(int(m.group(1)))
+        elif len(vals) == 3 and isinstance(vals[0], ast.Constant) and vals[0].value == '0' \
+                and isinstance(vals[1], ast.FormattedValue) and vals[1].format_spec is None and vals[1].conversion == -1 \
+                and isinstance(vals[2], ast.Constant) and vals[2].value == 'd':
+            w = self.res(self.ev(vals[1].value))
+            if isinstance(w, VInt) and not isinstance(w, VBool):
+                width = w.t
+        if width is None:
+            return None
+        digits = models.int_to_str(self, v).t
+        r = z3.String(self.fresh_name('zpad'))
+        pad = z3.String(self.fresh_name('zeros'))
+        n = z3.If(width > 0, width, 0)
+        nonneg = v.t >= 0
+        self.assume(z3.Implies(nonneg, r == z3.Concat(pad, digits)))
+        self.assume(z3.Implies(nonneg, z3.InRe(pad, z3.Star(z3.Re('0')))))
+        self.assume(z3.Implies(nonneg, z3.Length(r) == z3.If(z3.Length(digits) >= n, z3.Length(digits), n)))
+        self.used_assumptions.add('A-BUILTIN: format spec 0<N>d pads the decimal digits of a non-negative int with zeros to N')
+        return VStr(r)
 
     # ---- speculative (fork-free) evaluation of a sub-expression under an assumption
     def speculate(self, assumption, node):
@@ -485,6 +519,14 @@ class ExprMixin:
                     if ik in ('int', 'str', 'bool') and c.kind in ('int', 'str', 'bool') and ik != c.kind:
                         return False
                     raise
+                if isinstance(item, VOpaque) and item.cls != 'function' and \
+                        (c.kind == 'ref' or (isinstance(c.kind, tuple) and c.kind[0] == 'ref')):
+                    # Python's `in` compares with ==, and == of objects known only by reference is equality of
+                    # their abstract values: some element has the same abstract value (identity implies it)
+                    # (quantified rather than seq.map: cvc5 does not parse seq.map, and z3 decides this form faster)
+                    j = z3.Int(self.fresh_name('in_j'))
+                    return z3.Exists([j], z3.And(j >= 0, j < z3.Length(c.seq),
+                                                 models.absval(c.seq[j]) == models.absval(t)))
                 return z3.Contains(c.seq, z3.Unit(t))
             if isinstance(c, DictCell):
                 if isinstance(item, VStr):
